@@ -87,8 +87,13 @@ impl Display for ParseError {
             ParseError::IncompleteStatement(_) => write!(f, "Unexpected end of file"),
             ParseError::UnknownDirective(_) => write!(f, "Unknown directive"),
             ParseError::CyclicDependency(_) => write!(f, "Cyclic dependency"),
-            ParseError::FileNotFound(file) => write!(f, "File not found: {file}"),
-            ParseError::IOError(file, err) => write!(f, "IO Error: {file} ({err})"),
+            // The path is the decoded string: shown escaped, a title is one line
+            ParseError::FileNotFound(file) => {
+                write!(f, "File not found: {}", file.get().escape_debug())
+            }
+            ParseError::IOError(file, err) => {
+                write!(f, "IO Error: {} ({err})", file.get().escape_debug())
+            }
             ParseError::InvalidString(_info, _kind) => {
                 write!(f, "Invalid string")
             }
@@ -141,8 +146,12 @@ impl DiagnosticMessage for ParseError {
                 This is likely due to a file importing itself or a file importing a file that imports it.\
                 Please remove the cyclic dependency to fix this error.
             ".to_string(),
-            ParseError::FileNotFound(file) => format!("File not found: {file}"),
-            ParseError::IOError(file, err) => format!("IO Error: {file} ({err})"),
+            ParseError::FileNotFound(file) => {
+                format!("File not found: {}", file.get().escape_debug())
+            }
+            ParseError::IOError(file, err) => {
+                format!("IO Error: {} ({err})", file.get().escape_debug())
+            }
             ParseError::InvalidString(_, e) => {
                 match e.kind {
                     StringLexErrorType::InvalidEscapeSequence => {
